@@ -2,7 +2,7 @@
 from vx.extract import C
 from .exec_common import exec_unit, begin_ast, end_ast, child_stub, FOOTER
 
-PROPS = ['C02', 'C03', 'C01']
+PROPS = ['C02', 'C03', 'C16', 'C01']
 
 RUN = 'if_run(new_events(old(shell).trace(), %s.trace()), *self_, params.suppress_errexit)'
 
